@@ -60,13 +60,17 @@ class RawModel(abc.ABC):
     def __deepcopy__(self, memo: dict[int, Any]) -> Self:
         ...
 
-    def detach(self) -> list['RawTokenModel']:
-        if not self.token_store:
-            return []
-        if (
+    def check_detachable(self) -> None:
+        """Raises ValueError if detach() would refuse this model, without detaching it."""
+        if self.token_store and (
                 self.first_token is not self.token_store.get_first() or
                 self.last_token is not self.token_store.get_last()):
             raise ValueError('Cannot reuse node. Consider making a copy.')
+
+    def detach(self) -> list['RawTokenModel']:
+        if not self.token_store:
+            return []
+        self.check_detachable()
         tokens = list(self.token_store)
         if tokens:
             self.token_store.remove(tokens[0], tokens[-1])
